@@ -387,6 +387,75 @@ def run(chk):
     if nreach < 2:
         raise AnalysisBroken("C13 R13.6: only %d accesses to published overload lists found" % nreach)
 
+    # ------------------------------------------------------------------ R13.7 check-then-act inside one critical section
+    r7 = chk.rule("R13.7", "a decision taken from a guarded table and the update that depends on it lie in one critical section, or the update cannot overwrite (insert / emplace) or re-tests the table under its own lock",
+                  "concurrent registrations are all retained: no registration is lost between a lookup and the write that follows it")
+    nsec = 0
+    for f in cand:
+        li = info.get(fkey(f), (None, None))[1] or LockInfo(prog, f)
+        if len(li.locks) < 2:
+            continue
+        pr = PathResolver(prog, f)
+        flow = li.flow
+
+        def section_of(n, mq):
+            """the lock object (vid) on mutex mq whose scope covers n (nearest declaration before n in an enclosing block)"""
+            chain = [n] + list(flow.ancestors(n))
+            for i, a in enumerate(chain[1:], 1):
+                child = chain[i - 1]
+                if a.get("k") != "block":
+                    continue
+                sibs = a.get("s", [])
+                idx = next((j for j, s_ in enumerate(sibs) if s_ is child), None)
+                if idx is None:
+                    continue
+                for s_ in reversed(sibs[:idx]):
+                    if s_.get("k") == "decl":
+                        for v in s_["vars"]:
+                            if v["vid"] in li.locks and li.locks[v["vid"]][1] == mq and li._state_before(v["vid"], s_, n):
+                                return v["vid"]
+            return None
+        per_field = {}
+        for n in walk(f["body"]):
+            if n.get("k") not in ("member", "ref"):
+                continue
+            if n.get("k") == "ref" and n.get("rk") not in ("local", "binding", "field"):
+                continue
+            p_ = pr.path(n)
+            g = guard_of(p_)
+            if g is None:
+                continue
+            par = flow.parent(n)
+            if par is not None and par.get("k") == "member" and strip_casts(par.get("base")) is n:
+                continue
+            fq, mq = g
+            sec = section_of(n, mq)
+            if sec is None:
+                continue
+            kind = classify_use(prog, f, flow, n)
+            op = par.get("name") if par is not None and par.get("k") == "call" else (par.get("k") if par is not None else "")
+            per_field.setdefault(fq, []).append((n["l"], sec, kind, op, n))
+        for fq, accs in per_field.items():
+            secs = sorted({a[1] for a in accs}, key=lambda v: li.locks[v][3]["l"])
+            if len(secs) < 2:
+                continue
+            nsec += 1
+            for bi, B in enumerate(secs[1:], 1):
+                earlier_reads = [a for a in accs if a[1] in secs[:bi] and a[2] == "read"]
+                if not earlier_reads:
+                    continue
+                for (l, sec, kind, op, n) in accs:
+                    if sec != B or kind != "write":
+                        continue
+                    if op in ("insert", "emplace", "try_emplace", "emplace_hint"):
+                        continue            # does not overwrite an entry another thread put there in between
+                    retest = [a for a in accs if a[1] == B and a[2] == "read" and a[0] <= l and a[3] in ("find", "count", "contains", "at", "end", "lower_bound")]
+                    r7.ob("%s: update of %s after a lookup made in an earlier critical section" % (strip_targs(f["q"]), fq.split("::")[-1]), bool(retest),
+                          "%s:%d" % (f["file"], l), f["q"],
+                          "the table is consulted under one lock (line %d), the lock is released, and the entry is then written with %s under another lock without testing again: "
+                          "a registration made by another thread in between is overwritten / lost" % (earlier_reads[0][0], op or "an assignment"))
+    r7.ob("functions that touch one guarded table in two critical sections: %d examined" % nsec, True, "", "", "")
+
     # ------------------------------------------------------------------ R13.3 locks held across calls
     r3 = chk.rule("R13.3", "no non-recursive mutex is held across a call that can re-acquire it on the same object or reach user code",
                   "no self-deadlock; user callbacks never run under an engine lock they might need")
